@@ -166,12 +166,26 @@ Definition legacy_find (root : trie) (method path : string)
       | None => RNotFound
       | Some ops =>
           (* Operations()[method]: an unknown method has no operation *)
-          if known_method && str_in method ops then RPanicR "nil node dereference" else RMethodNotAllowed
+          (* declared literally with this method, but the pattern does not match its own text: no node *)
+          if known_method && str_in method ops then RNotFound else RMethodNotAllowed
       end
   end.
 
-(* ---- gorilla/mux: ordered route list, whole-segment templates ---- *)
-Inductive seg := SLit (s : string) | SVar (name : string).
+(* ---- gorilla/mux: ordered route list; a segment is a literal, a variable, or a variable between a
+   literal prefix and suffix ("report.{ext}": the regexp prefix([^/]+)suffix inside the segment) ---- *)
+Inductive seg := SLit (s : string) | SVar (name : string) | SMix (pre name suf : string).
+Fixpoint take (n : nat) (s : string) : string :=
+  match n, s with
+  | S k, String c r => String c (take k r)
+  | _, _ => EmptyString
+  end.
+(* the non-empty middle of x between pre and suf *)
+Definition strip_affixes (pre suf x : string) : option string :=
+  if String.prefix pre x then
+    let y := drop (String.length pre) x in
+    let k := String.length y - String.length suf in
+    if Nat.ltb (String.length suf) (String.length y) && String.eqb (drop k y) suf then Some (take k y) else None
+  else None.
 Fixpoint split_slash (s : string) (cur : string) : list string :=
   match s with
   | EmptyString => [cur]
@@ -186,6 +200,11 @@ Fixpoint segs_match (t : list seg) (p : list string) : option (list (string * st
   | SVar n :: t', x :: p' =>
       if String.eqb x "" then None            (* [^/]+ needs one character *)
       else match segs_match t' p' with Some m => Some (upd n x m) | None => None end
+  | SMix pre n suf :: t', x :: p' =>
+      match strip_affixes pre suf x with
+      | Some v => match segs_match t' p' with Some m => Some (upd n v m) | None => None end
+      | None => None
+      end
   | _, _ => None
   end.
 
